@@ -953,7 +953,7 @@ def make_cases(ctx, info):
     for spec in gen_values(ctx, ctx.n(10, 100)):
         cases.append({"level": "reentrant", "ser": rng.choice(SERS), "value": spec})
     e2e = []
-    for v in TARGET_VALUES[:24] + [datetime.datetime(1969, 12, 31, 23, 59, 58, 500000), [datetime.datetime(1950, 6, 1, 1, 2, 3, 1)], uuid.UUID(int=5), [uuid.UUID(int=5)], b"abc", {"k": (1, 2)}, "x" * 300, list(range(60))]:
+    for v in TARGET_VALUES[:24] + [None, False, 0, "", [], 0.0, datetime.datetime(1969, 12, 31, 23, 59, 58, 500000), [datetime.datetime(1950, 6, 1, 1, 2, 3, 1)], uuid.UUID(int=5), [uuid.UUID(int=5)], b"abc", {"k": (1, 2)}, "x" * 300, list(range(60))]:
         for sname in SERS:
             e2e.append({"level": "e2e", "ser": sname, "value": S(v), "positions": list(POSITIONS), "compress": [False, True],
                         "msg": MSG_ALL if len(e2e) % 3 == 0 else ["", "r", "p", "rpc"]})
